@@ -127,6 +127,25 @@ theorem ln_quadrature_exact (terms : List LP) (r w c : ℝ) (hw : 0 < w) (hc : 0
   rw [hl] at h
   rw [exp_sub, exp_add, exp_log hw, exp_log hc, h]
 
+/-- the operand list built by `ln_trapezoidal_integrate_exp` (inner grid points with `+ ln 2`, then the two end
+points; `f i` = log-density at grid point `i`, `n ≥ 2` points) sums to the trapezoid weights 1, 2, …, 2, 1 -/
+theorem trapezoid_terms_sum (f : ℕ → ℝ) (n : ℕ) :
+    ((((List.range (n - 2)).map fun i => (some (f (i + 1) + log 2) : LP)) ++ [some (f 0), some (f (n - 1))]).map lin).sum
+      = 2 * ((List.range (n - 2)).map fun i => exp (f (i + 1))).sum + exp (f 0) + exp (f (n - 1)) := by
+  simp only [List.map_append, List.map_map, List.sum_append, List.map_cons, List.map_nil, List.sum_cons,
+    List.sum_nil, lin]
+  have : ((fun a => lin a) ∘ fun i => (some (f (i + 1) + log 2) : LP)) = fun i => 2 * exp (f (i + 1)) := by
+    funext i; simp only [Function.comp, lin]; rw [exp_add, exp_log (by norm_num)]; ring
+  have h2 : (List.map (lin ∘ fun i => (some (f (i + 1) + log 2) : LP)) (List.range (n - 2))).sum
+      = 2 * ((List.range (n - 2)).map fun i => exp (f (i + 1))).sum := by
+    rw [show (lin ∘ fun i => (some (f (i + 1) + log 2) : LP)) = fun i => 2 * exp (f (i + 1)) from this]
+    rw [List.sum_map_mul_left]
+  rw [h2]; ring
+
+/-- Simpson's weights as the code computes them: `(2 + (i % 2) * 2)` is 4 at odd and 2 at even inner grid points -/
+theorem simpson_weight (i : ℕ) : (2 + (i % 2) * 2 : ℕ) = if i % 2 = 1 then 4 else 2 := by
+  rcases Nat.mod_two_eq_zero_or_one i with h | h <;> simp [h]
+
 /-! ### checked construction and scale factors -/
 
 /-- `Prob::checked` accepts exactly the closed unit interval -/
